@@ -36,6 +36,9 @@ fn check_cap(cap: usize, size: usize) -> Result<(), String> {
 }
 
 fn check_layout(size: usize, align: usize, k: u32) -> Result<(), String> {
+    // the call below can abort the process (std's unsafe-precondition check on an invalid
+    // layout): leave a breadcrumb so that the supervisor can re-execute exactly this input
+    crate::crumbs::set_replay(&format!("{{\"layout\":[{size},{align},{k}]}}"));
     let w = hv::GROUP_WIDTH;
     let ca = align.max(w);
     let buckets = 1usize << k;
@@ -309,6 +312,8 @@ impl Config for Arith {
     }
     fn run(&self) -> ConfigReport {
         let t0 = std::time::Instant::now();
+        crate::crumbs::set_config(&self.label());
+        crate::crumbs::set_replay("{\"arithmetic\":true}");
         let mut rep = ConfigReport { label: self.label(), mode: "enum".into(), exhaustive: true, ..Default::default() };
         match crate::env::catch(|| self.run_all()) {
             Ok(Ok(d)) => {
@@ -329,7 +334,14 @@ impl Config for Arith {
         rep.wall_s = t0.elapsed().as_secs_f64();
         rep
     }
-    fn replay(&self, _rp: &Value) -> Result<(), String> {
+    fn replay(&self, rp: &Value) -> Result<(), String> {
+        if let Some(l) = rp.get("layout").and_then(|l| l.as_array()) {
+            let g = |i: usize| l[i].as_u64().unwrap_or(0);
+            return match crate::env::catch(|| check_layout(g(0) as usize, g(1) as usize, g(2) as u32)) {
+                Ok(r) => r,
+                Err(m) => Err(m),
+            };
+        }
         match crate::env::catch(|| Arith { tier: Tier::Quick }.run_all()) {
             Ok(r) => r.map(|_| ()),
             Err(m) => Err(m),
